@@ -1636,3 +1636,63 @@ m("C14", "refactor-render-order", TP,
         rcontext: dict[str, Any] = {}''',
   '''        rcontext: dict[str, Any] = {}
         econtext = Scope(__kw)''', expect="silent")
+
+# ---- C08 -------------------------------------------------------------------
+m("C08", "item-gets-fresh-iterator", TL,
+  "        self[key] = RepeatItem(iterator, length)",
+  "        self[key] = RepeatItem(iter(iterable), length)")
+m("C08", "iterable-not-materialised", TL,
+  "        iterable = list(iterable) if iterable is not None else ()",
+  "        iterable = iterable if iterable is not None else ()")
+m("C08", "none-not-handled", TL,
+  "        iterable = list(iterable) if iterable is not None else ()",
+  "        iterable = list(iterable)")
+m("C08", "end-off-by-one", TL,
+  "        return self.index == self.length - 1",
+  "        return self.index == self.length")
+m("C08", "number-zero-based", TL,
+  "        return self.index + 1\n\n    @descriptorstr\n    def odd",
+  "        return self.index\n\n    @descriptorstr\n    def odd")
+m("C08", "odd-even-swapped", TL,
+  "        return self.index % 2 == 1 and 'odd' or ''",
+  "        return self.index % 2 == 0 and 'odd' or ''")
+m("C08", "index-off-by-one", TL,
+  "        return self.length - remaining - 1",
+  "        return self.length - remaining")
+m("C08", "separator-after-last", C,
+  '''            "if INDEX > 0: __append(WHITESPACE)",''',
+  '''            "if INDEX >= 0: __append(WHITESPACE)",''')
+m("C08", "separator-before-decrement", C,
+  '''        inner += template("index -= 1", index=index)
+
+        # For items up to N - 1, emit repeat whitespace
+        inner += template(
+            "if INDEX > 0: __append(WHITESPACE)",
+            INDEX=index, WHITESPACE=ast.Constant(node.whitespace)
+        )''',
+  '''        # For items up to N - 1, emit repeat whitespace
+        inner += template(
+            "if INDEX > 0: __append(WHITESPACE)",
+            INDEX=index, WHITESPACE=ast.Constant(node.whitespace)
+        )
+        inner += template("index -= 1", index=index)''')
+m("C08", "names-not-prebound", C,
+  '''        outer += [ast.Assign(
+            targets=[store_econtext(name)
+                     for name in node.names],
+            value=load("None"))
+        ]
+''', '')
+m("C08", "counter-shared", C,
+  '''        index = identifier("__index", id(node))''',
+  '''        index = identifier("__index")''')
+m("C08", "whitespace-from-after-children", ZP,
+  "        # Set element-local whitespace\n        whitespace = self._whitespace\n",
+  "        # Set element-local whitespace\n        whitespace = '\\n'\n")
+m("C08", "roman-zero-based", TL,
+  "        n = self.index + 1\n        s = \"\"",
+  "        n = self.index\n        s = \"\"")
+m("C08", "refactor-number", TL,
+  "        return self.index + 1\n\n    @descriptorstr\n    def odd",
+  "        return 1 + self.index\n\n    @descriptorstr\n    def odd",
+  expect="silent")
